@@ -93,9 +93,10 @@ class MethodModel:
     """What the reference needs to know about a registered method."""
 
     def __init__(self, signature: inspect.Signature, body: Callable[..., Any],
-                 validate: Optional[Callable[[Dict[str, Any]], bool]] = None):
+                 validate: Optional[Callable[[Dict[str, Any]], bool]] = None, internal: bool = False):
         self.signature = signature
         self.body = body
+        self.internal = internal   # handling fails inside the library's machinery (answered -32603, body not run)
         self.validate = validate   # schema / type validation of the bound arguments, if a validator is attached
 
 
@@ -113,6 +114,8 @@ def element_outcome(req: Dict[str, Any], methods: Dict[str, MethodModel], unset:
     model = methods.get(name)
     if model is None:
         return (_err(id_, METHOD_NOT_FOUND) if is_call else None), None
+    if model.internal:
+        return (_err(id_, INTERNAL_ERROR) if is_call else None), None
     args = params if isinstance(params, list) else []
     kwargs = params if isinstance(params, dict) else {}
     try:
